@@ -170,19 +170,28 @@ func buildMap(p *prng.R, kind mapKind, names []string) (*nameMap, error) {
 		// some are missing.
 		m.static = map[string]string{}
 		var cfg strings.Builder
+		// ... and several logins share one account (many-to-one).
 		perm := p.Perm(len(names))
+		shared := names[p.Intn(len(names))]
+		sharedVal, _ := spell(p, shared, prng.Pick(p, []string{"canon", "canon", "upper", "nfd"}))
 		for i, idx := range perm {
 			login := names[idx]
 			if p.Chance(1, 5) {
 				continue // unmapped login
 			}
 			acct := names[perm[(i+1)%len(perm)]]
-			if p.Chance(1, 4) {
+			switch p.Intn(4) {
+			case 0:
 				acct = login
+			case 1:
+				acct = shared
 			}
 			// The value may be any spelling of the account name: the
 			// credentials module normalises the name it is given.
 			val, _ := spell(p, acct, prng.Pick(p, []string{"canon", "canon", "upper", "nfd"}))
+			if acct == shared {
+				val = sharedVal // co-owners are written with the same value
+			}
 			m.static[login] = acct
 			fmt.Fprintf(&cfg, "entry %s %s\n", quote(login), quote(val))
 			m.config = append(m.config, login+" -> "+val)
@@ -202,6 +211,32 @@ func buildMap(p *prng.R, kind mapKind, names []string) (*nameMap, error) {
 		return m, mx.InitModule(mod, "", nil)
 	}
 	return nil, fmt.Errorf("bad map kind")
+}
+
+// foreignAuthzid picks an authorization identity of another class than the
+// login name; half of the time (when the map has one) a login name that the
+// map sends to the SAME account - the identity a co-owner of a shared account
+// would try to assume.
+func (e *env) foreignAuthzid(p *prng.R, canonLogin, canonAcct string, mapped bool) (string, bool) {
+	if mapped && p.Chance(3, 4) {
+		var co []string
+		for _, n := range e.names {
+			if n == canonLogin {
+				continue
+			}
+			if a, ok := e.nmap.ref(n); ok && a == canonAcct {
+				co = append(co, n)
+			}
+		}
+		if len(co) > 0 {
+			return prng.Pick(p, co), true
+		}
+	}
+	other := prng.Pick(p, e.names)
+	for other == canonLogin {
+		other = prng.Pick(p, e.names)
+	}
+	return other, false
 }
 
 // ---------------- reference model ----------------
@@ -401,9 +436,9 @@ type opRec struct {
 
 func showPw(pw string) string {
 	if len(pw) > 24 {
-		return fmt.Sprintf("%s…(%d bytes)…%s", pw[:8], len(pw), pw[len(pw)-6:])
+		return fmt.Sprintf("%s…(%d bytes, %d chars)…%s", truncBytesAtRune(pw, 8), len(pw), runeLen(pw), strings.ToValidUTF8(pw[len(pw)-6:], "?"))
 	}
-	return pw
+	return strings.ToValidUTF8(pw, "?")
 }
 
 type schemeOpt struct {
@@ -423,6 +458,7 @@ type counters struct {
 	authPlain, authLogin, authOK, authRefused             int64
 	authzid, authzidSame                                   int64
 	okVariant, okMapped, refusedStale, refusedDeleted      int64
+	extNonASCII72, truncLong, authzidCoMapped              int64
 }
 
 func (k *counters) flush(r *rep.Reporter) {
@@ -438,42 +474,40 @@ func (k *counters) flush(r *rep.Reporter) {
 	r.Count("sasl_refusal_expected_and_observed", k.authRefused)
 	r.Count("sasl_plain_foreign_authzid", k.authzid)
 	r.Count("sasl_plain_same_authzid", k.authzidSame)
+	r.Count("sasl_plain_foreign_authzid_mapped_to_same_account", k.authzidCoMapped)
 	r.Count("success_via_noncanonical_spelling", k.okVariant)
 	r.Count("success_via_mapped_name", k.okMapped)
 	r.Count("refused_stale_password", k.refusedStale)
 	r.Count("refused_deleted_account", k.refusedDeleted)
+	r.Count("attempts_extending_nonascii_72_byte_password_within_72_chars", k.extNonASCII72)
+	r.Count("attempts_truncating_longer_than_72_byte_password", k.truncLong)
 }
 
-// choosePassword picks a password that is often the current one, often a
-// near miss of it.
-func choosePassword(p *prng.R, a *acct, m *model, canon string) string {
+// choosePassword picks the password of an authentication attempt: often the
+// current one, often a near miss of it (second result: kind of the attempt).
+func choosePassword(p *prng.R, a *acct, m *model, canon string) (string, string) {
 	if a != nil && a.exists {
-		switch p.Weighted([]int{11, 3, 3, 2, 2, 2}) {
+		switch p.Weighted([]int{11, 3, 3, 9}) {
 		case 0:
-			return a.pw
+			return a.pw, "current"
 		case 1:
 			if len(a.stale) > 0 {
-				return prng.Pick(p, a.stale)
+				return prng.Pick(p, a.stale), "stale"
 			}
 		case 2:
 			if o := m.otherPasswords(canon); len(o) > 0 {
-				return prng.Pick(p, o)
+				return prng.Pick(p, o), "other-account"
 			}
-		case 3: // extension
-			return a.pw + prng.Pick(p, []string{"x", " ", "é", strings.Repeat("z", 130)})
-		case 4: // prefix
-			if len(a.pw) > 0 {
-				return a.pw[:len(a.pw)-1]
-			}
-		case 5: // case variant
-			if s := strings.ToUpper(a.pw); s != a.pw {
-				return s
-			}
+		case 3:
+			return probePassword(p, a.pw)
 		}
 	} else if a != nil && len(a.stale) > 0 && p.Bool() {
-		return prng.Pick(p, a.stale)
+		return prng.Pick(p, a.stale), "stale"
 	}
-	return prng.Pick(p, passwordPool)
+	if p.Chance(1, 4) {
+		return boundaryPassword(p, 0), "random"
+	}
+	return prng.Pick(p, passwordPool), "random"
 }
 
 // judgeAuth compares one exchange with the reference. otherOK says whether
@@ -546,8 +580,8 @@ func runHistory(t *testing.T, r *rep.Reporter, c *rep.Case, idx int) {
 		case 0: // create
 			canon := prng.Pick(p, e.names)
 			name, vk := spell(p, canon, prng.Pick(p, variantKinds))
-			pw := prng.Pick(p, passwordPool)
 			sc := prng.Pick(p, schemes)
+			pw := genPassword(p, sc.algo == pass_table.HashBcrypt)
 			existed := e.model.get(canon).exists
 			err := e.pt.CreateUserHash(name, pw, sc.algo, sc.opts)
 			rec := opRec{Op: "create", Name: name, Canon: canon, Variant: vk, Pw: showPw(pw), PwLen: len(pw), Scheme: sc.name}
@@ -576,7 +610,7 @@ func runHistory(t *testing.T, r *rep.Reporter, c *rep.Case, idx int) {
 				canon = prng.Pick(p, e.names)
 			}
 			name, vk := spell(p, canon, prng.Pick(p, variantKinds))
-			pw := prng.Pick(p, passwordPool)
+			pw := genPassword(p, true)
 			err := e.pt.SetUserPassword(name, pw)
 			rec := opRec{Op: "set-password", Name: name, Canon: canon, Variant: vk, Pw: showPw(pw), PwLen: len(pw), Scheme: "bcrypt-default"}
 			if err == nil {
@@ -627,8 +661,17 @@ func runHistory(t *testing.T, r *rep.Reporter, c *rep.Case, idx int) {
 			if mapped {
 				a = e.model.accts[canonAcct]
 			}
-			pw := choosePassword(p, a, e.model, canonAcct)
+			pw, probe := choosePassword(p, a, e.model, canonAcct)
 			expect := mapped && a != nil && a.exists && a.pw == pw
+			if a != nil && a.exists {
+				r.Distinct("password_attempt_kinds", probe+" on "+a.scheme+"/"+pwKind(a.pw))
+				if !expect && len(a.pw) == 72 && pwKind(a.pw) == "nonascii-len72" && strings.HasPrefix(pw, a.pw) && runeLen(pw) <= 72 {
+					k.extNonASCII72++
+				}
+				if !expect && len(a.pw) > 72 && strings.HasPrefix(a.pw, pw) && len(pw) >= 71 {
+					k.truncLong++
+				}
+			}
 			primary := "PLAIN"
 			if p.Bool() {
 				primary = "LOGIN"
@@ -697,6 +740,25 @@ func runHistory(t *testing.T, r *rep.Reporter, c *rep.Case, idx int) {
 			r.Distinct("auth_situations", fmt.Sprintf("map=%s name=%s acct=%s expect=%v pw=%s", e.nmap.kind, vk, st, expect, pwKind(pw)))
 
 			// Authorization identity clause (PLAIN only carries one).
+			// Hostile scenario first: a co-owner of a shared account (another
+			// login name the map sends to the same account) presents VALID
+			// credentials and asks for the other co-owner's identity.
+			if a != nil && a.exists && mapped && p.Bool() {
+				if other, co := e.foreignAuthzid(p, canonLogin, canonAcct, true); co {
+					zid, _ := spell(p, other, prng.Pick(p, variantKinds))
+					zo := runPlain(e.sasl, zid, name, a.pw)
+					k.authzid++
+					k.authzidCoMapped++
+					k.authPlain++
+					f := false
+					hist = append(hist, opRec{Op: "auth-plain-authzid-co-owner", Name: name, Canon: canonLogin, Pw: showPw(a.pw), PwLen: len(a.pw), Expect: &f, Plain: &zo, Note: "authzid=" + zid + " (maps to the same account), valid credentials"})
+					if zo.OK {
+						c.Violation("authzid/accepted-different-identity/valid-credentials/authzid-maps-to-same-account",
+							fmt.Sprintf("PLAIN with authzid %q and authcid %q (both mapped to account %q) was accepted (identity reported: %q)", zid, name, canonAcct, zo.Identity), wit())
+					}
+					nontrivial = true
+				}
+			}
 			if p.Chance(1, 3) {
 				if p.Chance(1, 3) {
 					// byte-identical authzid: must decide like no authzid at all
@@ -708,13 +770,13 @@ func runHistory(t *testing.T, r *rep.Reporter, c *rep.Case, idx int) {
 						func() bool { return runPlain(e.sasl, canonLogin, canonLogin, pw).OK }, wit)
 				} else {
 					// authzid of a different class (another user, existing or not)
-					other := prng.Pick(p, e.names)
-					for other == canonLogin {
-						other = prng.Pick(p, e.names)
-					}
+					other, coMapped := e.foreignAuthzid(p, canonLogin, canonAcct, mapped)
 					zid, _ := spell(p, other, prng.Pick(p, variantKinds))
 					zo := runPlain(e.sasl, zid, name, pw)
 					k.authzid++
+					if coMapped {
+						k.authzidCoMapped++
+					}
 					k.authPlain++
 					f := false
 					hist = append(hist, opRec{Op: "auth-plain-authzid-foreign", Name: name, Canon: canonLogin, Pw: showPw(pw), PwLen: len(pw), Expect: &f, Plain: &zo, Note: "authzid=" + zid})
@@ -722,6 +784,9 @@ func runHistory(t *testing.T, r *rep.Reporter, c *rep.Case, idx int) {
 						valid := "wrong-password"
 						if expect {
 							valid = "valid-credentials"
+						}
+						if coMapped {
+							valid += "/authzid-maps-to-same-account"
 						}
 						c.Violation("authzid/accepted-different-identity/"+valid,
 							fmt.Sprintf("PLAIN with authzid %q and authcid %q was accepted (identity reported: %q)", zid, name, zo.Identity), wit())
